@@ -9,8 +9,21 @@ def decl : P Decl := do
   let m ← nat
   pure { name, forSteps := fs, maxRec := m }
 
+def sErr : LayoutErr → String
+  | .wildcards n => s!"W{n}"
+  | .unknown h t => s!"U{h}:{t}"
+  | .coversHandler h t => s!"C{h}:{t}"
+  | .claimedTwice t o h => s!"D{t}:{o}:{h}"
+
 def step (_ : Unit) (line : String) : Unit × String :=
   match tokens line with
+  | "E" :: ts =>
+    -- the messages of validate_catch_error_handlers for the layout, classified, in order (`none`: no message)
+    match (do let steps ← counted nat; let hs ← counted decl; pure (steps, hs)) ts with
+    | some ((steps, hs), []) =>
+      let es := errors steps hs
+      ((), if es.isEmpty then "none" else " ".intercalate (es.map sErr))
+    | _ => ((), "bad-op")
   | "H" :: ts =>
     match (do let steps ← counted nat; let hs ← counted decl; pure (steps, hs)) ts with
     | some ((steps, hs), []) =>
